@@ -217,6 +217,7 @@ func c02Cell(p vbase.Params, r *vbase.Result, scheme string, cache uint, n, repI
 
 	warm := w.M(1)
 	cold := w.M(hotstuff.ID(n))
+	early := w.NewMemberIncremental(hotstuff.ID(n)) // registered its peers one by one, answering quorum queries in between
 	cacheTag := "off"
 	if cache > 0 {
 		cacheTag = "on"
@@ -257,8 +258,8 @@ func c02Cell(p vbase.Params, r *vbase.Result, scheme string, cache uint, n, repI
 		if honestMade {
 			verd = MustAccept
 		}
-		targets := []*Member{warm, cold}
-		modes := []string{"warm", "cold"}
+		targets := []*Member{warm, cold, early}
+		modes := []string{"warm", "cold", "configured-incrementally"}
 		if honestMade {
 			targets = w.Members
 			modes = nil
